@@ -366,6 +366,24 @@ class Interp:
             x = self.get(values, ins[0])
             b, e, st = (self.get(values, ins[k]).flatten() for k in (1, 2, 3))
             return [x[tuple(slice(int(bb), int(ee), int(ss)) for bb, ee, ss in zip(b, e, st))]]
+        if code == "SPLIT_V":
+            x = self.get(values, ins[0])
+            sizes = [int(v) for v in self.get(values, ins[1]).flatten()]
+            axis = int(self.get(values, ins[2]).flatten()[0]) % x.ndim
+            if -1 in sizes:
+                sizes[sizes.index(-1)] = x.shape[axis] - (sum(sizes) + 1)
+            return list(np.split(x, np.cumsum(sizes)[:-1], axis=axis))
+        if code == "TRANSPOSE":
+            return [np.transpose(self.get(values, ins[0]), [int(v) for v in self.get(values, ins[1]).flatten()])]
+        if code == "PACK":
+            for i in ins:
+                if (T[i]["scale"], T[i]["zp"]) != (ot["scale"], ot["zp"]):
+                    raise Unsupported("PACK with requantisation")
+            return [np.stack([self.get(values, i) for i in ins], axis=opts.get("Axis", 0))]
+        if code == "UNPACK":
+            x = self.get(values, ins[0])
+            axis = opts.get("Axis", 0) % x.ndim
+            return [np.take(x, k, axis=axis) for k in range(x.shape[axis])]
         if code == "SPLIT":
             axis = int(self.get(values, ins[0]).flatten()[0])
             x = self.get(values, ins[1])
